@@ -82,16 +82,22 @@ class GateOracle:
         sysm.man.on_delivery.append(self._on_event)
 
     def _tap(self, kind: str, rec) -> None:
-        if rec.verb != "APING":
-            return
-        if kind == "rx" and rec.dst[0] != SPA_IP:
-            for label, tr in self.sys.transports.items():
-                if tr.local == rec.dst:
-                    self.last_ping[label] = self.world.now()
-        elif kind == "tx" and rec.src[0] != SPA_IP:
+        # the ping loop starts its window when it starts: first ping transmission of a connection
+        if rec.verb == "APING" and kind == "tx" and rec.src[0] != SPA_IP:
             for label, tr in self.sys.transports.items():
                 if tr.local == rec.src and label not in self.last_ping:
                     self.last_ping[label] = self.world.now()
+
+    def refresh(self) -> None:
+        """Last time the ping loop *took* a ping reply from the receive queue (a reply may sit behind a backlog of
+        unclaimed datagrams for seconds before the ping loop sees it; the library's window starts when it does)."""
+        for label, q in self.sys.queues.items():
+            for it in reversed(q.items[-400:]):
+                if it["item"][0].startswith(b"APING") and it["pops"] and it["pops"][0]["by"] == "SPA:Ping loop":
+                    t = it["pops"][0]["t"]
+                    if t > self.last_ping.get(label, -1.0):
+                        self.last_ping[label] = t
+                    break
 
     def _on_event(self, d) -> None:
         name = d["event"].name
@@ -109,13 +115,14 @@ class GateOracle:
 
         if not self.connected.get(id(spa), False):
             return "not-connected"
+        self.refresh()
         label = getattr(spa, "_verif_label", None)
         L = self.last_ping.get(label)
         now = self.world.now()
         if L is None:
             return None
         F = GeckoConfig.PING_FREQUENCY_IN_SECONDS
-        margin = 1.0 + self.world.clock.stall_between(L, now)
+        margin = 0.3 + self.world.clock.stall_between(L, now)
         if now - L >= 2 * F + margin:
             return "ping-silent"
         return None
@@ -417,13 +424,13 @@ COMPONENTS = {
 ASSUMPTIONS = [
     "a caller whose connection is torn down while it waits may complete by raising (counted by a probe, not flagged)",
     "'not answering pings' is the library's own window (2 x ping frequency); the oracle demands silence only when the last ping "
-    "reply delivered to the endpoint is older than that window plus 1 s (+ injected stall)",
+    "reply the ping loop took from the receive queue is older than that window plus 0.3 s (+ injected stall)",
     "STATQ acknowledgements are not requests (sent by the partial-update consumer outside the lock by design)",
 ]
 PROBES = ["retried_call", "retry_exhausted_call", "three_or_more_waiters", "caller_cancelled", "call_failed",
           "gate_closed:press:ping-silent", "gate_closed:getwc:ping-silent", "gate_closed:set:ping-silent",
           "gate_closed:setwc:ping-silent", "gate_closed:remind:ping-silent"]
-N_QUICK = 320
+N_QUICK = 1600
 
 
 def jobs(tier: str, base_seed: int):
